@@ -33,71 +33,87 @@ theorem start_rest (script : List (Stream μ)) (req : ρ) : (start assumedReach 
 theorem start_reqs (script : List (Stream μ)) (req : ρ) : (start assumedReach grpcCancelIs script req).reqs = [req] := by
   cases script <;> rfl
 
+/-- facts shared by the run-level theorems: for ONE number `n` of re-open attempts, what the caller
+got, what the server saw and which part of the script was used -/
+theorem run_facts (watch : Bool) (max : Nat) (ca : Option Nat) (script : List (Stream μ)) (req : ρ) :
+    let r := runStream assumedReach grpcCancelIs watch max ca false script req
+    ∃ n, (watch = false → n = 0) ∧
+      r.final.reqs = List.replicate (1 + srv script.tail n) req ∧
+      r.delivered ++ r.final.cur = (script.take (n + 1)).flatMap (·.msgs) ∧
+      segOk max 0 (openedFrom script.tail n) = true ∧
+      ((r.err = .eof ∨ r.err = .unavailable) → watch = true → cnt 0 (openedFrom script.tail n) = max + 1) := by
+  intro r
+  obtain ⟨n, hw, h, b1, b2⟩ := recvLoop_full watch max (totalMsgs script + 2) ca
+    (start assumedReach grpcCancelIs script req) (start_quiet _ _)
+  rw [start_rest] at b1 b2
+  refine ⟨n, hw, ?_, ?_, b1, b2⟩
+  · have hr := h.reqs
+    change r.final.reqs = _ at hr
+    rw [hr, start_reqs, start_rest]
+    cases script <;> simp [start, Nat.add_comm 1, List.replicate_succ]
+  · have hm := h.msgs
+    change r.delivered ++ r.final.cur = _ at hm
+    rw [hm]
+    cases script with
+    | nil => simp [start]
+    | cons s rs => simp [start, List.take_succ_cons]
+
 /-- `delivers_concat`: what the caller received, in order, is exactly the concatenation of the
-messages of the streams the server served (no loss, no duplicate, no reordering across re-opens);
-`n` = number of requests the server saw. -/
+messages of the streams it opened (no loss, no duplicate, no reordering across re-opens, nothing from
+an attempt that failed); `n` = number of re-open attempts, of which `srv script.tail n` reached the
+server. -/
 theorem delivers_concat (watch : Bool) (max : Nat) (script : List (Stream μ)) (req : ρ) :
     let r := runStream assumedReach grpcCancelIs watch max none false script req
-    r.delivered = (script.take r.final.reqs.length).flatMap (·.msgs) := by
+    ∃ n, r.final.reqs.length = 1 + srv script.tail n ∧
+      r.delivered = (script.take (n + 1)).flatMap (·.msgs) := by
   intro r
-  obtain ⟨k, _, h⟩ := recvLoop_adv watch max (totalMsgs script + 2) none (start assumedReach grpcCancelIs script req) (start_quiet _ _)
+  obtain ⟨n, _, h1, h2, _, _⟩ := run_facts watch max none script req
   have hnil : r.final.cur = [] := by
     apply recvLoop_cur_nil _ _ _ _ (start_quiet _ _)
     cases script with
     | nil => simp [remaining, start, totalMsgs]
     | cons s rs => simp [remaining, start, totalMsgs]
-  have hm := h.msgs
-  have hr := h.reqs
-  change r.delivered ++ r.final.cur = _ at hm
-  change r.final.reqs = _ at hr
-  rw [hnil, List.append_nil] at hm
-  rw [hm, hr]
-  cases script with
-  | nil => simp [start]
-  | cons s rs => simp [start, List.take_succ_cons]
+  refine ⟨n, by rw [show r.final.reqs = _ from h1]; simp, ?_⟩
+  have := h2
+  change r.delivered ++ r.final.cur = _ at this
+  rw [hnil, List.append_nil] at this
+  exact this
 
 /-- whatever the caller does (cancel after `n` messages or never), what it received is a prefix of
-the concatenation of the served streams' messages: nothing lost, duplicated or reordered -/
+the concatenation of the opened streams' messages: nothing lost, duplicated or reordered -/
 theorem delivered_is_prefix (watch : Bool) (max : Nat) (ca : Option Nat) (script : List (Stream μ)) (req : ρ) :
     let r := runStream assumedReach grpcCancelIs watch max ca false script req
-    r.delivered <+: (script.take r.final.reqs.length).flatMap (·.msgs) := by
+    ∃ n, r.final.reqs.length = 1 + srv script.tail n ∧
+      r.delivered <+: (script.take (n + 1)).flatMap (·.msgs) := by
   intro r
-  obtain ⟨k, _, h⟩ := recvLoop_adv watch max (totalMsgs script + 2) ca (start assumedReach grpcCancelIs script req) (start_quiet _ _)
-  have hm := h.msgs
-  have hr := h.reqs
-  change r.delivered ++ r.final.cur = _ at hm
-  change r.final.reqs = _ at hr
-  have : (script.take r.final.reqs.length).flatMap (·.msgs) = r.delivered ++ r.final.cur := by
-    rw [hm, hr]
-    cases script with
-    | nil => simp [start]
-    | cons s rs => simp [start, List.take_succ_cons]
-  rw [this]; exact List.prefix_append _ _
+  obtain ⟨n, _, h1, h2, _, _⟩ := run_facts watch max ca script req
+  refine ⟨n, by rw [show r.final.reqs = _ from h1]; simp, ?_⟩
+  have := h2
+  change r.delivered ++ r.final.cur = _ at this
+  rw [← this]; exact List.prefix_append _ _
 
 /-- `requests_seen`: every request that reached the server is the original request; their number is
 1 + the number of re-opened streams. -/
 theorem requests_seen (watch : Bool) (max : Nat) (ca : Option Nat) (script : List (Stream μ)) (req : ρ) :
     ∃ k, (runStream assumedReach grpcCancelIs watch max ca false script req).final.reqs = List.replicate (k + 1) req := by
-  obtain ⟨k, _, h⟩ := recvLoop_adv watch max (totalMsgs script + 2) ca (start assumedReach grpcCancelIs script req) (start_quiet _ _)
-  refine ⟨k, ?_⟩
-  have hr := h.reqs
-  change (runStream assumedReach grpcCancelIs watch max ca false script req).final.reqs = _ at hr
-  rw [hr]
-  cases script <;> simp [start, List.replicate_succ]
+  obtain ⟨n, _, h1, _⟩ := run_facts watch max ca script req
+  exact ⟨srv script.tail n, by rw [Nat.add_comm]; exact h1⟩
 
-/-- one `RecvMsg` re-opens at most `max + 1` streams, and gives up (returns the break's error) only
-after exactly `max + 1` re-opened streams delivered nothing -/
+/-- one `RecvMsg` makes at most `max + 1` re-open attempts (open + re-send + first receive; a failure
+of any of the three uses up one attempt), and gives up (returns the last error) only after exactly
+`max + 1` attempts none of which delivered a message -/
 theorem reopen_budget (max : Nat) (c : Cli μ ρ) (hreach : Quiet c) :
     match recvMsg true max false c with
-    | .msg _ c' => c'.reqs.length ≤ c.reqs.length + (max + 1)
-    | .fail e c' => e ≠ .blocked → c'.reqs.length = c.reqs.length + (max + 1) ∧
+    | .msg _ c' => ∃ k, k ≤ max + 1 ∧ c'.rest = c.rest.drop k ∧ c'.reqs.length = c.reqs.length + srv c.rest k
+    | .fail e c' => e ≠ .blocked → c'.rest = c.rest.drop (max + 1) ∧
+        c'.reqs.length = c.reqs.length + srv c.rest (max + 1) ∧
         ((c.rest.take (max + 1)).flatMap (·.msgs)) = [] := by
   have h := recvMsg_adv true max false c hreach
   cases hr : recvMsg true max false c with
   | msg m c' =>
     rw [hr] at h
     obtain ⟨k, hk, _, _, ha⟩ := h
-    simp [ha.reqs]; omega
+    exact ⟨k, hk, ha.rest, by simp [ha.reqs]⟩
   | fail e c' =>
     rw [hr] at h
     obtain ⟨k, _, _, _, ha, hcur, hb⟩ := h
@@ -106,29 +122,24 @@ theorem reopen_budget (max : Nat) (c : Cli μ ρ) (hreach : Quiet c) :
     subst hk
     have hm := ha.msgs
     rw [hcur rfl] at hm
-    constructor
-    · simp [ha.reqs]
-    · have : c.cur ++ (c.rest.take (max + 1)).flatMap (·.msgs) = [] := by simpa using hm.symm
-      exact (List.append_eq_nil_iff.mp this).2
+    refine ⟨ha.rest, by simp [ha.reqs], ?_⟩
+    have : c.cur ++ (c.rest.take (max + 1)).flatMap (·.msgs) = [] := by simpa using hm.symm
+    exact (List.append_eq_nil_iff.mp this).2
 
-/-- `run_budget` — `reopen_budget` lifted to whole runs (any cancellation plan): among the streams
-a run re-opens there are never more than `max + 1` consecutive ones without a message, and a run
-that ends with the stream's own error (EOF / status error — i.e. not blocked, not cancelled) gave up
-only after exactly `max + 1` message-less re-opens in a row. -/
+/-- `run_budget` — `reopen_budget` lifted to whole runs (any cancellation plan).  A re-open attempt is
+open + re-send + first receive; it fails if any of the three does (`failed` script elements: open or
+re-send error; served streams without a message: first receive fails or returns EOF).  Among the `n`
+attempts of a run there are never more than `max + 1` consecutive failing ones, and a run that ends
+with the stream's own error (EOF / status error — i.e. not blocked, not cancelled) gave up only after
+exactly `max + 1` failing attempts in a row: every failure consumes exactly ONE attempt of the budget. -/
 theorem run_budget (max : Nat) (ca : Option Nat) (script : List (Stream μ)) (req : ρ) :
     let r := runStream assumedReach grpcCancelIs true max ca false script req
-    let reopened := openedFrom script.tail (r.final.reqs.length - 1)
-    segOk max 0 reopened = true ∧ ((r.err = .eof ∨ r.err = .unavailable) → cnt 0 reopened = max + 1) := by
-  intro r reopened
-  obtain ⟨k, h1, h2, h3⟩ := recvLoop_seg true max (totalMsgs script + 2) ca (start assumedReach grpcCancelIs script req) (start_quiet _ _)
-  have hk : r.final.reqs.length - 1 = k := by
-    change (recvLoop true max ca (totalMsgs script + 2) (start assumedReach grpcCancelIs script req)).final.reqs.length - 1 = k
-    rw [h1, start_reqs]; simp
-  rw [start_rest] at h2 h3
-  show segOk max 0 (openedFrom script.tail (r.final.reqs.length - 1)) = true ∧
-    (_ → cnt 0 (openedFrom script.tail (r.final.reqs.length - 1)) = max + 1)
-  rw [hk]
-  exact ⟨h2, fun he => h3 he rfl⟩
+    ∃ n, r.final.reqs.length = 1 + srv script.tail n ∧
+      segOk max 0 (openedFrom script.tail n) = true ∧
+      ((r.err = .eof ∨ r.err = .unavailable) → cnt 0 (openedFrom script.tail n) = max + 1) := by
+  intro r
+  obtain ⟨n, _, h1, _, b1, b2⟩ := run_facts true max ca script req
+  exact ⟨n, by rw [show r.final.reqs = _ from h1]; simp, b1, fun he => b2 he rfl⟩
 
 /-- `cancelled_never_retried` (one call), DERIVED from the transport assumption `reach = false`: the
 model does enter the retry loop as the Go code does (`recvCancelled`), its single operation opens a
@@ -185,45 +196,51 @@ theorem blocked_cancel_never_retried (watch : Bool) (max : Nat) (script : List (
 re-opened, whatever the budget, the script and the caller do -/
 theorem non_watch_never_retried (max : Nat) (ca : Option Nat) (script : List (Stream μ)) (req : ρ) :
     (runStream assumedReach grpcCancelIs false max ca false script req).final.reqs = [req] := by
-  obtain ⟨k, hk, h⟩ := recvLoop_adv false max (totalMsgs script + 2) ca (start assumedReach grpcCancelIs script req) (start_quiet _ _)
-  have hr := h.reqs
-  change (runStream assumedReach grpcCancelIs false max ca false script req).final.reqs = _ at hr
-  rw [hr, hk rfl]
-  cases script <;> simp [start]
+  obtain ⟨n, hn, h1, _⟩ := run_facts false max ca script req
+  rw [h1, hn rfl, srv_zero]; rfl
 
 /-- `stream_meets_spec`: the decidable specification the oracle evaluates on /repo's output
-(`specStream`: request re-sent, messages = concatenation, budget never exceeded, gave up only after
-the budget, non-watch never re-opened) holds of the model for every script, budget and request, for
-runs that end with the stream's own error (uncancelled, not left blocked on a hanging script). -/
+(`specStream`: request re-sent, exactly the non-failing attempts reached the server, messages =
+concatenation, budget never exceeded, gave up only after the budget, non-watch never re-opened) holds
+of the model for every script (failing open / re-send attempts included), budget and request, for
+runs that end with the stream's own error (uncancelled, not left blocked on a hanging script);
+`n + 1` = number of streams the client opened or tried to open. -/
 theorem stream_meets_spec [DecidableEq μ] [DecidableEq ρ] (watch : Bool) (max : Nat) (script : List (Stream μ)) (req : ρ)
     (hend : (runStream assumedReach grpcCancelIs watch max none false script req).err = .eof ∨
             (runStream assumedReach grpcCancelIs watch max none false script req).err = .unavailable) :
     let r := runStream assumedReach grpcCancelIs watch max none false script req
-    specStream watch max none false script req r.delivered r.final.reqs r.final.reqs.length = [] := by
+    ∃ n, specStream watch max none false script req r.delivered (n + 1) r.final.reqs r.final.reqs.length = [] := by
   intro r
-  obtain ⟨k, hk⟩ := requests_seen watch max none script req
-  have hd := delivers_concat watch max script req
-  have hreq : r.final.reqs = List.replicate (k + 1) req := hk
-  have hdel : r.delivered = (openedFrom script r.final.reqs.length).flatMap (·.msgs) := by
-    rw [flatMap_openedFrom]; exact hd
+  obtain ⟨n, hn, hreq, hmsg, b1, b2⟩ := run_facts watch max none script req
+  have hnil : r.final.cur = [] := by
+    apply recvLoop_cur_nil _ _ _ _ (start_quiet _ _)
+    cases script with
+    | nil => simp [remaining, start, totalMsgs]
+    | cons s rs => simp [remaining, start, totalMsgs]
+  have hreq' : r.final.reqs = List.replicate (1 + srv script.tail n) req := hreq
+  have hdel : r.delivered = (openedFrom script (n + 1)).flatMap (·.msgs) := by
+    have := hmsg
+    change r.delivered ++ r.final.cur = _ at this
+    rw [hnil, List.append_nil] at this
+    rw [flatMap_openedFrom]; exact this
+  refine ⟨n, ?_⟩
   unfold specStream
-  simp only [Option.filter_none, Option.isSome_none, Bool.or_false, Bool.false_and, Bool.not_false, Bool.true_and]
-  have h1 : (r.final.reqs.all (· == req)) = true := by rw [hreq]; simp
-  have h2 : r.final.reqs.length ≥ 1 := by rw [hreq]; simp
-  have h3 : (r.delivered == (openedFrom script r.final.reqs.length).flatMap (·.msgs)) = true := by rw [← hdel]; simp
+  simp only [Option.filter_none, Option.isSome_none, Bool.or_false, Bool.false_and, Bool.not_false, Bool.true_and,
+    Nat.add_sub_cancel]
+  have h1 : (r.final.reqs.all (· == req)) = true := by rw [hreq']; simp
+  have h2 : r.final.reqs.length ≥ 1 := by rw [hreq']; simp
+  have h2' : (r.final.reqs.length == 1 + srv script.tail n) = true := by rw [hreq']; simp
+  have h3 : (r.delivered == (openedFrom script (n + 1)).flatMap (·.msgs)) = true := by rw [← hdel]; simp
   cases watch with
   | true =>
-    obtain ⟨b1, b2⟩ := run_budget max none script req
-    have b2' := b2 hend
-    simp [h1, h2, h3]
+    have b2' := b2 hend rfl
+    simp [h1, h2, h2', h3]
     exact ⟨b1, b2'⟩
   | false =>
-    have := non_watch_never_retried max none script req
-    have h4 : r.final.reqs.length = 1 := by
-      change (runStream assumedReach grpcCancelIs false max none false script req).final.reqs.length = 1
-      rw [this]; rfl
-    simp [h1, h2, h3, h4]
-    rw [hdel, h4]
+    have hn0 := hn rfl
+    subst hn0
+    have h4 : r.final.reqs.length = 1 := by rw [hreq', srv_zero]; simp
+    simp [h1, h2, h3, h4, srv_zero]
 
 /-- unary calls: between 1 and `max + 1` attempts, stopping at the first success … -/
 theorem unary_attempts (max : Nat) (outs : List Bool) :
@@ -251,8 +268,8 @@ theorem unary_meets_spec (max : Nat) (outs : List Bool) :
 
 -- hypotheses are satisfiable / statements are not vacuous: a concrete run
 example : (runStream false false true 1 none false
-    [⟨["a", "b"], .err⟩, ⟨[], .err⟩, ⟨["c"], .eof⟩, ⟨[], .eof⟩, ⟨[], .err⟩, ⟨["never"], .eof⟩] "req").delivered = ["a", "b", "c"] := by decide
+    [.served ⟨["a", "b"], .err⟩, .failed, .served ⟨["c"], .eof⟩, .served ⟨[], .eof⟩, .failed, .served ⟨["never"], .eof⟩] "req").delivered = ["a", "b", "c"] := by decide
 example : (runStream false false true 1 none false
-    [⟨["a", "b"], .err⟩, ⟨[], .err⟩, ⟨["c"], .eof⟩, ⟨[], .eof⟩, ⟨[], .err⟩, ⟨["never"], .eof⟩] "req").final.reqs.length = 5 := by decide
+    [.served ⟨["a", "b"], .err⟩, .failed, .served ⟨["c"], .eof⟩, .served ⟨[], .eof⟩, .failed, .served ⟨["never"], .eof⟩] "req").final.reqs.length = 3 := by decide
 
 end Eru.Props.C36
